@@ -437,6 +437,11 @@ def errprop(e, env, H: Helpers, lemmas=None, total=False):
             f = max if op == 'call:max' else min
             V = I(f(Va.lo, Vb.lo), f(Va.hi, Vb.hi)); D = I(f(Ra.lo, Rb.lo), f(Ra.hi, Rb.hi))
             r = fin(V, I(min(Ea.lo, Eb.lo), max(Ea.hi, Eb.hi)), D)
+        elif op == 'call:clamp':
+            # clamp(x, lo, hi) = min(max(x, lo), hi): 1-Lipschitz in each argument
+            (Va, Ea, Ra), (Vl, El, Rl), (Vh, Eh, Rh) = rec(n.args[0]), rec(n.args[1]), rec(n.args[2])
+            cl = lambda A, L_, H_: I(min(max(A.lo, L_.lo), H_.lo), min(max(A.hi, L_.hi), H_.hi))
+            r = fin(cl(Va, Vl, Vh), I(min(Ea.lo, El.lo, Eh.lo, 0.0), max(Ea.hi, El.hi, Eh.hi, 0.0)), cl(Ra, Rl, Rh))
         elif op == 'call:copysign':
             (Va, Ea, Ra), (Vb, Eb, Rb) = rec(n.args[0]), rec(n.args[1])
             m = Va.abs(); mr = Ra.abs()
